@@ -90,12 +90,13 @@ var c01TokenTargets = map[string]string{
 	"cat/pkg/ALTERNATIVES": "alternatives.go", "cat/pkg/PLIST": "plist.go", "cat/pkg/distinfo": "distinfo.go",
 	"cat/pkg/CVS/Entries": "pkglint.go", "cat/pkg/CVS/Entries.Log": "pkglint.go", "cat/pkg/buildlink3.mk": "buildlink3.go",
 	"cat/Makefile": "category.go", "Makefile": "toplevel.go", "cat/pkg/patches/patch-aa": "patches.go",
+	"mk/fetch/sites.mk": "vardefs.go", "mk/tools/defaults.mk": "pkgsrc.go",
 }
 
 // c01TokenLines: all concatenations of <= 3 tokens (quick: over a seed-chosen
 // sub-alphabet of at most `max` tokens), the same behind a plausible first
 // field, and field-count sweeps over every one-byte separator token.
-func c01TokenLines(r *Rng, toks []string, max int) []string {
+func c01TokenLines(r *Rng, toks []string, max int, mk bool) []string {
 	atoms := []string{"x", "/", " ", "1"}
 	var al []string
 	seen := map[string]bool{}
@@ -137,6 +138,9 @@ func c01TokenLines(r *Rng, toks []string, max int) []string {
 	for i := 0; i < n; i++ {
 		if !strings.ContainsAny(lines[i], " \t") {
 			lines = append(lines, first+" "+lines[i])
+			if mk { // in a makefile the tokens are mostly parts of variable names
+				lines = append(lines, lines[i]+"=\tx")
+			}
 		}
 	}
 	var prefixes = []string{""}
@@ -240,8 +244,11 @@ func c01DictCases(ctx *Ctx, dict *c01Dictionary, base *TreeSpec, st *c01DictStat
 		if thorough {
 			max = 22
 		}
-		lines := c01TokenLines(r.Fork(), toks, max)
+		lines := c01TokenLines(r.Fork(), toks, max, strings.HasSuffix(path, ".mk") || strings.HasSuffix(path, "Makefile"))
 		hdr := c01DictHeader(path)
+		if old, ok := base.Get(path); ok && strings.HasPrefix(path, "mk/") {
+			hdr = old + "\n" // an infrastructure file keeps what the fixture needs
+		}
 		chunk := 600
 		for i := 0; i < len(lines); i += chunk {
 			j := i + chunk
@@ -255,7 +262,7 @@ func c01DictCases(ctx *Ctx, dict *c01Dictionary, base *TreeSpec, st *c01DictStat
 			spec := base.Clone()
 			spec.Put(path, 'f', text)
 			target := "cat/pkg"
-			if !strings.HasPrefix(path, "cat/pkg/") {
+			if !strings.HasPrefix(path, "cat/pkg/") && !strings.HasPrefix(path, "mk/") {
 				target = filepath.Dir(path)
 			}
 			add("dict:tokens", spec, target, "dict.tokens."+c01TokenTargets[path], "dict.tokenfile."+path)
